@@ -8,5 +8,8 @@ CONSTANTS
   QueueCap = 1000000
   MaxFail = 1000000
   MaxExpire = 1000000
+  TTLOf <- TraceTTLOf
+  MaxStale = 3600
+  Advances = {}
   TraceFile = "c14_trace.ndjson"
 CHECK_DEADLOCK FALSE
